@@ -10,7 +10,7 @@ meta = {
     "written_by": "independent sub-agent given only the property text and a scratch worktree of /repo",
     "needs_to_manifest": needs,
     "confirmed": {
-        "suite_passes_with_change": "86 passed" in log.split("== demo with change")[0],
+        "suite_passes_with_change": bool(__import__("re").search(r"\d+ tests run: (\d+) passed, 0 skipped", log.split("== demo with change")[0])) and " failed" not in log.split("== demo with change")[0],
         "demo_fails_with_change": any(w in log.split("== demo with change")[1].split("== demo without change")[0] for w in ("FAILED", "panicked")),
         "demo_passes_without_change": "test result: ok" in log.split("== demo without change")[1],
         "commands": ["cargo nextest run --workspace --no-fail-fast --offline   (in the scratch worktree, demonstration moved aside)",
